@@ -387,7 +387,11 @@ func registerStrings(e *Engine) {
 		if s.Const {
 			return c.Return(StrC(strings.ToUpper(s.S)))
 		}
-		panic(unsupported("strings.ToUpper symbolic"))
+		r, succ, ok := c.E.caseASCII(c, s, true)
+		if !ok {
+			return succ
+		}
+		return c.Return(r)
 	}
 	e.Intr["strings.TrimSpace"] = func(c *Call) []*State {
 		return c.Return(c.E.trimSet(c.St, c.argTerm(0), " \t\n\v\f\r", true, true))
@@ -591,15 +595,20 @@ func BVToIntNat(b *Term) *Term {
 	return newTerm(&Term{Kind: SInt, Op: "bv2nat", Args: []*Term{b}})
 }
 
-// lowerASCII: per-character lowering; needs concrete length.
-func (e *Engine) lowerASCII(c *Call, s *Term) (*Term, []*State, bool) {
+// lowerASCII / caseASCII: per-character case mapping; needs concrete length.
+func (e *Engine) lowerASCII(c *Call, s *Term) (*Term, []*State, bool) { return e.caseASCII(c, s, false) }
+
+func (e *Engine) caseASCII(c *Call, s *Term, upper bool) (*Term, []*State, bool) {
 	if s.Const {
+		if upper {
+			return StrC(strings.ToUpper(s.S)), nil, true
+		}
 		return StrC(strings.ToLower(s.S)), nil, true
 	}
 	if s.Op == "app:int_str" {
 		return s, nil, true // decimal numerals have no letters
 	}
-	key := "lower:" + s.SMT()
+	key := fmt.Sprintf("case:%v:%s", upper, s.SMT())
 	if v, ok := c.St.Ghost[key]; ok {
 		return v.(*Term), nil, true
 	}
@@ -610,13 +619,17 @@ func (e *Engine) lowerASCII(c *Call, s *Term) (*Term, []*State, bool) {
 		}
 		return nil, succ, false
 	}
+	lo, hi, delta := int64(65), int64(90), int64(32)
+	if upper {
+		lo, hi, delta = 97, 122, -32
+	}
 	var parts []*Term
 	for i := 0; i < int(n); i++ {
 		ch := StrAt(s, IntC(int64(i)))
 		code := StrToCode(ch)
-		isUp := newTerm(&Term{Kind: SBool, Op: "and", Args: []*Term{intCmp("<=", IntC(65), code), intCmp("<=", code, IntC(90))}})
-		low := StrFromCode(intArith("+", code, IntC(32)))
-		parts = append(parts, Ite(isUp, low, ch))
+		in := newTerm(&Term{Kind: SBool, Op: "and", Args: []*Term{intCmp("<=", IntC(lo), code), intCmp("<=", code, IntC(hi))}})
+		mapped := StrFromCode(intArith("+", code, IntC(delta)))
+		parts = append(parts, Ite(in, mapped, ch))
 	}
 	r := StrConcat(parts...)
 	c.St.Ghost[key] = r
